@@ -2,7 +2,7 @@
    with the NEON intrinsics it uses (after the Arm ARM pseudocode).  A uint64x2_t is its two 64-bit
    lanes (lane 0, lane 1); reinterpret casts are identities on the 128 bits. *)
 From Coq Require Import NArith ZArith List Lia Bool Arith.
-From HW Require Import Word Chunks Packet Mem X86 Portable.
+From HW Require Import Word Chunks Packet Mem Stream X86 Portable.
 Import ListNotations.
 Local Open Scope N_scope.
 
@@ -176,31 +176,14 @@ Definition n_data_to_lanes (packet : mem) : res (V128 * V128) :=
   do packetH <- vld1q_u8 packet 16 ;;
   Ok (packetH, packetL).
 
-Fixpoint n_absorb_chunks (c : ncore) (addr : N) (ps : list (list N)) : res ncore :=
-  match ps with
-  | [] => Ok c
-  | chunk :: ps =>
-      do p <- n_data_to_lanes {| mbytes := chunk; maddr := addr |} ;;
-      n_absorb_chunks (n_update c (fst p) (snd p)) (addr + 32) ps
-  end.
+(* update(data_to_lanes(packet)) *)
+Definition n_step (c : ncore) (packet : mem) : res ncore :=
+  do p <- n_data_to_lanes packet ;; Ok (n_update c (fst p) (snd p)).
 
+(* aarch64.rs: append — the shared text of Stream.v *)
 Definition n_append (prof : profile) (addr : N) (s : nstate) (data : list N) : res nstate :=
-  if is_empty (n_buffer s) then
-    let '(ps, r) := chunks32 data in
-    do c <- n_absorb_chunks (n_core s) addr ps ;;
-    do b <- set_to prof (n_buffer s) r ;;
-    Ok {| n_core := c; n_buffer := b |}
-  else
-    match fill (n_buffer s) data with
-    | (b, None) => Ok {| n_core := n_core s; n_buffer := b |}
-    | (b, Some tail) =>
-        do p <- n_data_to_lanes (self_buf N_BUF_ADDR (inner b)) ;;
-        let c := n_update (n_core s) (fst p) (snd p) in
-        let '(ps, r) := chunks32 tail in
-        do c <- n_absorb_chunks c (addr + N.of_nat (length data - length tail)) ps ;;
-        do b' <- set_to prof b r ;;
-        Ok {| n_core := c; n_buffer := b' |}
-    end.
+  do r <- g_append n_step N_BUF_ADDR prof addr (n_core s) (n_buffer s) data ;;
+  Ok {| n_core := fst r; n_buffer := snd r |}.
 
 Definition n_pre_finalize (prof : profile) (s : nstate) : res ncore :=
   if negb (is_empty (n_buffer s)) then n_update_remainder prof s else Ok (n_core s).
